@@ -169,11 +169,24 @@ def check_leaf_loop(ctx):
     for nid in body_ids:
         n = g.nodes[nid]
         for c in node_calls(n):
-            if isinstance(c.func, ast.Name) and c.func.id == "is_check_leaftype" and [norm(a) for a in c.args] == [leaf]:
+            # the leaf is handed to the check predicate, directly or through a helper
+            if any(isinstance(a, ast.Name) and a.id == leaf for a in c.args) and m.resolve_call(f, c).kind in ("callout", "func", "method"):
                 checks.append((n, c))
     if not checks:
-        ctx.bad("C08.3", f, hdr.ast, "the leaves are not handed to the leaf check", construct="no is_check_leaftype(leaf)")
+        ctx.bad("C08.3", f, hdr.ast, "no call in the leaves loop receives the leaf: the leaves are not checked", construct="no check call on the leaf")
         return
+    # a helper must (transitively) apply the check predicate it is given to the leaf it is given
+    for n, c in checks:
+        t = m.resolve_call(f, c)
+        if t.kind == "func" and t.target.parent is not f:
+            helper = t.target
+            ok_h = False
+            for c2 in m.calls_in(helper):
+                t2 = m.resolve_call(helper, c2)
+                if t2.kind == "callout" and any(isinstance(a, ast.Name) and a.id in helper.params for a in c2.args) and c2.func.id in helper.params:
+                    ok_h = True
+            if not ok_h:
+                raise AnalysisError(f"C08.3: the leaf is handed to `{helper.qualname}`, in which the application of the leaf predicate to the leaf was not recognised")
     for n, c in checks:
         if n.kind != "test":
             ctx.bad("C08.3", f, n.ast, "the result of the leaf check is not tested")
@@ -337,11 +350,15 @@ def check_flatten_flag(ctx):
     need(len(flags) == 1, "C08.7: flatten-mode flag not identified")
     setters = {x.qualname for x in flags[0].setters + flags[0].mixed}
 
+    cm_classes = {c.qualname for c in flags[0].cms}
+
     def sets(n):
         for c in node_calls(n):
             t = m.resolve_call(f, c)
             if t.kind == "func" and t.target.qualname in setters:
                 return True
+            if n.kind == "with_enter" and t.kind == "class" and t.target.qualname in cm_classes:
+                return True  # a class-based context manager whose pairing is judged by the flag typestate
         return False
 
     set_nodes = [n for n in g.live_nodes() if sets(n)]
